@@ -1178,7 +1178,10 @@ func TestVerifPool(t *testing.T) {
 	nrand := vt.EnvInt("VERIF_RANDOM", 10)
 	rng := vt.Rand(101)
 	outcomes := []string{"ok", "ok", "ok", "fb", "fb:enilimit", "fb:vswfull", "fb:ipquota", "fa", "partial:1", "partial:0", "fa:vswfull"}
-	for k := 0; k < nrand; k++ {
+	// directed scenarios (no random prefix) come after the random ones, in an index space of their own: dir = 0, 1, 2, ...
+	ndir := vt.EnvInt("VERIF_DIRECTED", 12)
+	for k := 0; k < nrand+ndir; k++ {
+		dir := k - nrand // < 0: a random scenario
 		cfg := vt.M{"cap": 2 + rng.Intn(2), "batch": 1 + rng.Intn(3), "slots": 2 + rng.Intn(2), "v4": true, "v6": rng.Intn(3) == 0,
 			"pre": rng.Intn(2), "trunk": rng.Intn(3) == 0, "special": []string{"", "", "trunk", "erdma"}[rng.Intn(4)], "policy": []string{"most_ips", "least_ips"}[rng.Intn(2)]}
 		mn := rng.Intn(3)
@@ -1219,13 +1222,13 @@ func TestVerifPool(t *testing.T) {
 				sc = append(sc, vt.M{"a": "settle"})
 			}
 		}
-		if k%8 == 2 || k%8 == 7 {
+		if dir >= 0 && dir%4 == 0 {
 			// the balancer lands between the factory worker storing fresh addresses (the waiting request's job is already
 			// popped) and the waiting request taking one: the interface is idle by its address table but not free
 			sc = sc[:1] // directed scenario: no random prefix, no other tail (the request budget of a scenario is limited)
 			c := vt.Map(sc[0]["conf"])
-			c["pre"], c["maxIdle"], c["minIdle"], c["batch"] = 0, 0, 0, 1+(k/8)%2
-			c["v6"] = k%8 == 7
+			c["pre"], c["maxIdle"], c["minIdle"], c["batch"] = 0, 0, 0, 1+(dir/8)%2
+			c["v6"] = (dir/4)%2 == 1
 			sc = append(sc, vt.M{"a": "uninhibit"}, vt.M{"a": "settle"})
 			for p := 1; p <= 4; p++ {
 				sc = append(sc, vt.M{"a": "release", "p": p})
@@ -1238,11 +1241,11 @@ func TestVerifPool(t *testing.T) {
 			scens = append(scens, sc)
 			continue
 		}
-		if k%8 == 4 {
+		if dir >= 0 && dir%4 == 1 {
 			sc = sc[:1]
 			c := vt.Map(sc[0]["conf"])
 			c["special"], c["trunk"], c["minIdle"], c["policy"] = "", false, 0, "most_ips"
-			if (k/8)%3 == 2 {
+			if (dir/4)%3 == 2 {
 				// dual stack with assign calls that take effect but report an error / a partial result, per family (the same
 				// history as the k%5 == 4 tail, here without a random prefix so that the request budget cannot cut it short)
 				c["v6"], c["cap"], c["slots"], c["batch"], c["pre"], c["maxIdle"] = true, 3, 2, 2, 0, 1
@@ -1253,7 +1256,7 @@ func TestVerifPool(t *testing.T) {
 					vt.M{"a": "alloc", "p": 4}, vt.M{"a": "alloc", "p": 2}, vt.M{"a": "settle"}, vt.M{"a": "uninhibit"}, vt.M{"a": "settle"},
 					vt.M{"a": "release", "p": 1}, vt.M{"a": "plan", "kind": "assign6", "outcomes": []any{"fa"}}, vt.M{"a": "plan", "kind": "assign4", "outcomes": []any{"partial:1"}},
 					vt.M{"a": "alloc", "p": 1}, vt.M{"a": "settle"}, vt.M{"a": "uninhibit"}, vt.M{"a": "settle"})
-			} else if (k/8)%3 == 0 {
+			} else if (dir/4)%3 == 0 {
 				// IPv6 switched on for a node whose interface carries IPv4 addresses only: more pods arrive at once than the
 				// interface has IPv6 slots; the pending IPv6 requests must count against the per-interface limit
 				c["v6"], c["cap"], c["slots"], c["batch"], c["pre"], c["noPre6"], c["preV4"], c["maxIdle"] = true, 3, 2, 3, 1, true, 2, 3
@@ -1263,7 +1266,7 @@ func TestVerifPool(t *testing.T) {
 			} else {
 				// the balancer gives an idle interface up, the cloud refuses the delete once: the slot is not free before the
 				// interface is really gone, new demand must not create an interface beyond the node's quota meanwhile
-				c["v6"], c["cap"], c["slots"], c["batch"], c["pre"], c["maxIdle"] = (k/16)%2 == 1, 2, 2, 1, 0, 0
+				c["v6"], c["cap"], c["slots"], c["batch"], c["pre"], c["maxIdle"] = (dir/12)%2 == 1, 2, 2, 1, 0, 0
 				sc = append(sc, vt.M{"a": "uninhibit"}, vt.M{"a": "settle"}, vt.M{"a": "alloc", "p": 1}, vt.M{"a": "settle"}, vt.M{"a": "alloc", "p": 2}, vt.M{"a": "settle"},
 					vt.M{"a": "alloc", "p": 3}, vt.M{"a": "wait", "ms": 700}, vt.M{"a": "settle"}, vt.M{"a": "release", "p": 3}, vt.M{"a": "settle"},
 					vt.M{"a": "plan", "kind": "delete", "outcomes": []any{"fb"}}, vt.M{"a": "syncpool"}, vt.M{"a": "wait", "ms": 500},
@@ -1272,27 +1275,27 @@ func TestVerifPool(t *testing.T) {
 			scens = append(scens, sc)
 			continue
 		}
-		if k%8 == 6 {
+		if dir >= 0 && dir%4 == 2 {
 			// restart on a node whose interface is full of addresses pods hold, with a minimum idle reserve and a slow
 			// metadata service: the balancer must not run before the interfaces are loaded
 			sc = sc[:1]
 			c := vt.Map(sc[0]["conf"])
 			c["cap"], c["slots"], c["batch"], c["pre"], c["minIdle"], c["maxIdle"], c["special"], c["trunk"] = 3, 2, 2, 0, 2, 3, "", false
-			c["v6"] = (k/8)%2 == 1
+			c["v6"] = (dir/4)%2 == 1
 			sc = append(sc, vt.M{"a": "uninhibit"}, vt.M{"a": "settle"}, vt.M{"a": "alloc", "p": 1}, vt.M{"a": "settle"}, vt.M{"a": "alloc", "p": 2}, vt.M{"a": "alloc", "p": 3},
 				vt.M{"a": "wait", "ms": 800}, vt.M{"a": "settle"}, vt.M{"a": "restart", "loadMs": 300}, vt.M{"a": "wait", "ms": 1500}, vt.M{"a": "settle"},
 				vt.M{"a": "alloc", "p": 4}, vt.M{"a": "settle"}, vt.M{"a": "release", "p": 1}, vt.M{"a": "restart", "loadMs": 100}, vt.M{"a": "wait", "ms": 1200}, vt.M{"a": "settle"})
 			scens = append(scens, sc)
 			continue
 		}
-		if k%8 == 5 {
+		if dir >= 0 && dir%4 == 3 {
 			// dual stack: shrinking leaves an interface with idle IPv4 but no idle IPv6 and no pod; the next request lands there
 			// (the other interface is full) and waits for an IPv6 address only; a pod leaves elsewhere and the balancer runs
 			sc = sc[:1]
 			c := vt.Map(sc[0]["conf"])
 			c["v6"], c["cap"], c["slots"], c["batch"], c["pre"], c["maxIdle"], c["minIdle"], c["policy"] = true, 2, 2, 2, 0, 1, 0, "most_ips"
 			c["special"], c["trunk"] = "", false
-			if (k/8)%2 == 0 {
+			if (dir/4)%2 == 0 {
 				// the shortest way into that state: the pre-attached interface has an idle IPv4 (its primary) and no IPv6 at all
 				// (IPv6 enabled on a node with an IPv4-only interface); one request waits for an IPv6 address, the balancer runs
 				c["pre"], c["noPre6"], c["maxIdle"] = 1, true, 0
@@ -1303,7 +1306,7 @@ func TestVerifPool(t *testing.T) {
 				scens = append(scens, sc)
 				continue
 			}
-			last := []int{2, 4}[(k/16)%2]
+			last := []int{2, 4}[(dir/8)%2]
 			sc = append(sc, vt.M{"a": "uninhibit"}, vt.M{"a": "settle"})
 			for p := 1; p <= 4; p++ {
 				sc = append(sc, vt.M{"a": "release", "p": p})
